@@ -25,6 +25,11 @@ SPECIAL = [
     "SELECT a + b, a * 2 FROM t",
     "SELECT random() AS r, a FROM t",
     "SELECT a FROM t UNION SELECT a FROM u",
+    # joins whose right operand renders to several CTEs of its own (their order in the WITH list must not depend on a hash)
+    "SELECT t.a AS a, d.s AS s FROM t JOIN (SELECT a, SUM(b) AS s FROM t GROUP BY a) AS d ON t.a = d.a",
+    "WITH m AS (SELECT AVG(b) AS avg_b FROM t) SELECT t.a AS a, m.avg_b AS avg_b FROM t CROSS JOIN m",
+    "SELECT x.a AS a, y.n AS n FROM (SELECT a + 1 AS a FROM u WHERE c > 0) AS x JOIN (SELECT a, COUNT(*) AS n FROM t GROUP BY a HAVING COUNT(*) > 0) AS y ON x.a = y.a",
+    "SELECT p.a AS a, q.k AS k FROM u AS p JOIN (SELECT d.a AS a, COUNT(d.b) AS k FROM (SELECT a, b FROM t WHERE b >= 0) AS d GROUP BY d.a) AS q ON p.a = q.a",
 ]
 
 
